@@ -41,7 +41,7 @@ def run(ctx):
     if not os.path.exists(common.harness_bin(PROP)) or not os.path.exists(common.driver_bin(PROP)):
         return ctx.finish(res, trusted=common.TRUSTED_COMMON)
     hist, samples = {}, []
-    progs = [scopegen.gen_program(rng.fork(), None) for _ in range(ctx.scale(80, 1500))]
+    progs = [scopegen.gen_program(rng.fork(), None) for _ in range(ctx.scale(60, 1500))]
     texts = [wrap_single(p) for p in progs]
     cdir = os.path.join(common.VERIF, "corpus", PROP)
     corpus = [open(f).read() for f in sorted(glob.glob(os.path.join(cdir, "*.sam")))]
@@ -89,12 +89,6 @@ def run(ctx):
             ctx.violation("rewrite::rename breaks C15: " + " ".join(parts[:5])[:160], payload)
             break
     hist["renames_checked"] = nren
-    # dedicated probe per open finding
-    for f in ctx.open_findings:
-        if f["id"] == "C15-F1":
-            a = run_impl(["rnthis " + hexs(f["replay"])], PROP)[0]
-            if a.startswith("FAIL renamed-has-diagnostics") and "name=this" in a:
-                ctx.known(f)
     # ---- behaviour of renamed programs
     beh = {"compared": 0}
     try:
